@@ -1298,6 +1298,8 @@ class Sim:
         if n is None:
             return None
         key = op.get("key", "score")
+        if op.get("invalid") == "bad_value":
+            key = "score"
         tags = []
         protected = set(tr.annotators.all_features) | {tr.features.time_key}
         must_refuse = False
@@ -1328,6 +1330,11 @@ class Sim:
         attrs = {key: val}
         if op.get("multi"):
             attrs = {"score": 0.25, key: val}
+        if op.get("invalid") == "bad_value" and not must_refuse:
+            # invalid request: the second value cannot be stored (a 0-d array); the first
+            # one must not stay written when the call raises
+            attrs = {"score": 0.75, "note": np.asarray(1.0)}
+            tags.append("invalid_bad_value")
         out = self._user_action(
             op, lambda: UserUpdateNodeAttrs(tr, n, attrs), "ua", {"node": n, "attrs": {k: repr(v) for k, v in attrs.items()}}, tags,
             named={"nodes": {n}, "tracks": set()}, extra={"allowed_removals": set(), "reason": "protected" if must_refuse else ("unknown" if n not in tr.graph.nodes else None)},
